@@ -97,3 +97,19 @@ Print Assumptions C13_projection_step_keeps_rowspace.
 Print Assumptions C13_left_inverse_in_rowspace_is_pseudoinverse.
 Print Assumptions C13_cgne_history_never_increases.
 Print Assumptions C13_cgne_step_value.
+
+From QVT Require Import EckartYoung Penrose.
+Section P2.
+Variable C : CRing.
+Notation qmat := (qmat C).
+(* "equals the Moore-Penrose inverse": for a matrix of full column rank (the Gram matrix A^H A has a two-sided inverse G) the matrix G A^H --
+   the one C13_left_inverse_in_rowspace_is_pseudoinverse identifies -- satisfies the four Penrose equations, and nothing else does *)
+Theorem C13_gram_form_is_the_moore_penrose_inverse m n (A G X : qmat) :
+  meq n n (qmm n G (qmm m (qherm A) A)) qmid -> meq n n (qmm n (qmm m (qherm A) A) G) qmid ->
+  penrose C m n A (qmm n G (qherm A)) /\ (penrose C m n A X -> meq n m X (qmm n G (qherm A))).
+Proof.
+  intros GL GR. pose proof (gram_inverse_is_penrose C m n A G GL GR) as P. split; [exact P|].
+  intros HX. exact (penrose_unique C m n A X _ HX P).
+Qed.
+End P2.
+Print Assumptions C13_gram_form_is_the_moore_penrose_inverse.
